@@ -648,7 +648,6 @@ class Gen(object):
       ["RemoveTable", "NoSuchTable"],
       ["RenameTable", "NoSuchTable", "Z"],
       ["AddRecord", tid, None, {"nosuchcol": 5}],
-      ["BulkAddRecord", tid, [None, None], {c["colId"]: [1] for c in (w.data_cols(t)[:1] if t else [])}],
       ["UpdateRecord", tid, -7, {}],
       ["ModifyColumn", tid, "nosuchcol", {"type": "Int"}],
       ["NoSuchAction", 1],
